@@ -324,3 +324,118 @@ twin('C12', 'c12-twin-flipped-predicate', RESOURCE,
      "        if not self._resources._available >= self._debits:\n            raise ResourcesUnavailable(self)",
      "        if not (self._resources._available >= self._debits):\n            raise ResourcesUnavailable(self)",
      'redundant parentheses')
+
+# ------------------------------------------------------------------------- C06
+mutant('C06', 'c06-f-lasti', TASK,
+       "        if getcoroutinestate(self.__runner__) == CORO_CREATED:\n            return TaskState.CREATED",
+       "        if self.__runner__.cr_frame.f_lasti == -1:\n            return TaskState.CREATED",
+       'typestate', 'the original defect F1')
+mutant('C06', 'c06-cancel-overwrites', TASK,
+       "        if self._result is None:\n            if self.status is TaskState.CREATED:",
+       "        if True:\n            if self.status is TaskState.CREATED:",
+       'X cancel', 'cancelling a finished task changes its outcome')
+mutant('C06', 'c06-close-overwrites', TASK,
+       "        if self._result is None:\n            self._result = None, reason",
+       "        if self._result is None or self._result[1] is not None:\n            self._result = None, reason",
+       'X __close__', 'closing rewrites a failure into a closure')
+mutant('C06', 'c06-done-before-result', TASK,
+       "            else:\n                self._result = result, None\n                self.parent.__child_finished__(self, failed=False)\n            for cancellation in self._cancellations:\n                cancellation.revoke()\n            try_close(self.payload)\n            self._done.__set_done__()",
+       "            else:\n                self._done.__set_done__()\n                self._result = result, None\n                self.parent.__child_finished__(self, failed=False)\n                return\n            for cancellation in self._cancellations:\n                cancellation.revoke()\n            try_close(self.payload)\n            self._done.__set_done__()",
+       'once', 'awaiters woken before the result exists')
+mutant('C06', 'c06-cancel-token-dropped', TASK,
+       "                cancellation = CancelTask(self, *token)",
+       "                cancellation = CancelTask(self)",
+       'K cancel:running', 'token lost')
+mutant('C06', 'c06-cancel-created-schedules', TASK,
+       "            if self.status is TaskState.CREATED:\n                self._result = None, TaskCancelled(self, *token)\n                self._done.__set_done__()\n            else:",
+       "            if False:\n                self._result = None, TaskCancelled(self, *token)\n                self._done.__set_done__()\n            else:",
+       'K cancel', 'an unstarted task still runs its first segment')
+mutant('C06', 'c06-cancel-delayed', TASK,
+       "                __USIM_STATE__.loop.schedule(self.__runner__, signal=cancellation)",
+       "                __USIM_STATE__.loop.schedule(self.__runner__, signal=cancellation, delay=1)",
+       'K cancel:running', 'cancellation arrives later')
+mutant('C06', 'c06-cancel-not-registered', TASK,
+       "                self._cancellations.append(cancellation)\n", "",
+       'K cancel:running', 'a cancellation racing with completion is never revoked')
+mutant('C06', 'c06-cancel-is-failure', TASK,
+       "                self._result = None, err.__transcript__\n                self.parent.__child_finished__(self, failed=False)",
+       "                self._result = None, err.__transcript__\n                self.parent.__child_finished__(self, failed=True)",
+       'I', 'cancelling a child aborts its parent scope')
+mutant('C06', 'c06-handler-order', TASK,
+       "            except CancelTask as err:\n                assert (\n                    err.subject is self\n                ), \"task for activity %r received cancellation of %r\" % (\n                    self, err.subject\n                )\n                self._result = None, err.__transcript__\n                self.parent.__child_finished__(self, failed=False)\n            except GeneratorExit:",
+       "            except GeneratorExit:",
+       'I', 'CancelTask falls into the generic failure handler')
+mutant('C06', 'c06-await-returns-tuple', TASK,
+       "        if error is not None:\n            raise error\n        else:\n            return result  # noqa: B901",
+       "        return result  # noqa: B901",
+       'A', 'awaiting a failed task returns None')
+mutant('C06', 'c06-transcript-subject', TASK,
+       "        result = TaskCancelled(self.subject, *self.token)",
+       "        result = TaskCancelled(self, *self.token)",
+       'K CancelTask.__transcript__', 'TaskCancelled carries the signal instead of the task')
+mutant('C06', 'c06-set-done-no-trigger', TASK,
+       "        self._value = True\n        self.__trigger__()\n\n    def __repr__(self):\n        return f'<{self.__class__.__name__} for {self._task!r}>'",
+       "        self._value = True\n\n    def __repr__(self):\n        return f'<{self.__class__.__name__} for {self._task!r}>'",
+       'once Done', 'awaiters of a task are never woken')
+twin('C06', 'c06-twin-equality', TASK,
+     "        if getcoroutinestate(self.__runner__) == CORO_CREATED:\n            return TaskState.CREATED",
+     "        if CORO_CREATED == getcoroutinestate(self.__runner__):\n            return TaskState.CREATED",
+     'operands swapped')
+
+# ------------------------------------------------------------------------- C04
+mutant('C04', 'c04-aexit-exc-no-close', CONTEXT,
+       "            self._body_done._value = True\n            self._body_done.__trigger__()\n        self._close_scope()\n        return not",
+       "            self._body_done._value = True\n            self._body_done.__trigger__()\n            return not self._propagate_exceptions(exc_type, exc_val)\n        self._close_scope()\n        return not",
+       'P Scope.__aexit__', 'a failing body leaves its children running')
+mutant('C04', 'c04-aexit-handler-exception', CONTEXT,
+       "            except BaseException as err:\n                self._close_scope()",
+       "            except Exception as err:\n                self._close_scope()",
+       'P Scope.__aexit__', 'cancel/interrupt during graceful shutdown skips closing')
+mutant('C04', 'c04-await-children-single-pass', CONTEXT,
+       "        while self._children:\n            for child in self._children[:]:\n                await child.done",
+       "        for child in self._children[:]:\n            await child.done",
+       'E', 'children spawned during shutdown are not waited for')
+mutant('C04', 'c04-close-children-live-list', CONTEXT,
+       "        for child in self._children.copy():\n            child.__close__(reason=reason)",
+       "        for child in self._children:\n            child.__close__(reason=reason)",
+       'M _close_children', 'every second child is skipped (upstream bug #66)')
+mutant('C04', 'c04-volatile-before-children', CONTEXT,
+       "        self._close_children()\n        self._close_volatile()",
+       "        self._close_volatile()\n        self._close_children()",
+       'P _close_scope', 'volatile children closed before regular ones')
+mutant('C04', 'c04-do-after-close', CONTEXT,
+       "        if not self._interruptable:\n            # we have been given the payload with the expectation of managing it\n            # close it now since no-one else should expect to own it\n            try_close(payload)\n            raise ScopeClosed(self)\n",
+       "",
+       'R', 'spawning into an ended scope is accepted')
+mutant('C04', 'c04-do-refuse-leaks-payload', CONTEXT,
+       "            try_close(payload)\n            raise ScopeClosed(self)",
+       "            raise ScopeClosed(self)",
+       'R do:refused', 'refused payload is not closed')
+mutant('C04', 'c04-do-volatile-in-children', CONTEXT,
+       "        if not volatile:\n            self._children.append(child_task)\n        else:\n            self._volatile_children.append(child_task)",
+       "        self._children.append(child_task)",
+       'R', 'volatile children are waited for / removal from the wrong list')
+mutant('C04', 'c04-graceful-no-await', CONTEXT,
+       "                await self._body_done.set()\n                await self._await_children()\n",
+       "                await self._body_done.set()\n",
+       'P Scope.__aexit__', 'children are closed instead of awaited on a normal exit')
+mutant('C04', 'c04-close-unstarted-closes-runner', TASK,
+       "            if getcoroutinestate(self.__runner__) == CORO_CREATED:\n                # We have not STARTED",
+       "            if False:\n                # We have not STARTED",
+       'F __close__', 'closing an unstarted runner: its pending activation fails')
+mutant('C04', 'c04-wrapper-genexit-awaits', TASK,
+       "            except GeneratorExit:\n                # We are NOT allowed to do any async once the generator\n                # exits forcefully.\n                # We should only receive GeneratorExit due to a forceful\n                # termination in self.__close__ or during cleanup.\n                self.parent.__child_finished__(self, failed=False)",
+       "            except GeneratorExit:\n                await suspend(delay=1, until=None)\n                self.parent.__child_finished__(self, failed=False)",
+       'forced-close', 'awaiting after a forced close')
+mutant('C04', 'c04-wrapper-no-report-on-close', TASK,
+       "            except GeneratorExit:\n                # We are NOT allowed to do any async once the generator\n                # exits forcefully.\n                # We should only receive GeneratorExit due to a forceful\n                # termination in self.__close__ or during cleanup.\n                self.parent.__child_finished__(self, failed=False)",
+       "            except GeneratorExit:\n                pass",
+       'F wrapper', 'a closed child stays registered in its scope')
+mutant('C04', 'c04-flag-set-genexit', FLAG,
+       "        await postpone()\n\n\nclass InverseFlag",
+       "        try:\n            await postpone()\n        except GeneratorExit:\n            await postpone()\n            raise\n\n\nclass InverseFlag",
+       'forced-close', 'a helper awaits while being closed')
+twin('C04', 'c04-twin-list-copy', CONTEXT,
+     "        for child in self._children.copy():\n            child.__close__(reason=reason)",
+     "        for child in list(self._children):\n            child.__close__(reason=reason)",
+     '.copy() <-> list()')
